@@ -36,11 +36,23 @@ class Evaluator(Run):
         if v is not None:
             if v is UNDEFINED:
                 raise Unsupported("use of possibly-unbound local %r" % name)
-            return v
+            return self.unnull(v, name)
         g = self.ctx.lookup_global(self, name)
         if g is not None:
-            return g
+            return self.unnull(g, name)
         return const(DottedName(name))
+
+    def unnull(self, v, label):
+        if v.t.kind != "nullable":
+            return v
+        flag, ref = v.z
+        if self.pure:
+            if not self.feasible(flag):
+                return ref
+            if not self.feasible(z3.Not(flag)):
+                return mk_none()
+            raise EngineError("nullable reference not resolved on this path (spec) at %s" % label)
+        return mk_none() if self.decide(flag, label + "?none") else ref
 
     def ev_Attribute(self, node, frame):
         base = self.ev(node.value, frame)
@@ -59,7 +71,12 @@ class Evaluator(Run):
         if base.t.kind == "obj":
             cell = self.cell(base) if self.old_heap is None else self.old_heap[base.z]
             if attr in cell.content:
-                return cell.content[attr]
+                return self.unnull(cell.content[attr], attr)
+            return const(BoundMethod(base, attr))
+        if base.t.kind == "opaque":
+            r = self.ctx.opaque_attr(self, base, attr, node)
+            if r is not None:
+                return r
             return const(BoundMethod(base, attr))
         if base.t.kind == "rec" and attr in base.t.fields:
             return V(base.t.fields[attr], base.t.get(base.z, attr))
@@ -133,6 +150,8 @@ class Evaluator(Run):
                 val = self.ev(p.value, frame)
                 if val.t.kind == "str" and p.conversion == -1 and p.format_spec is None:
                     parts.append(val)
+                elif val.is_const or val.t.heap or val.t.kind == "nullable":
+                    parts.append(self.ctx.uf_apply(self, "fmtconst%d" % (id(p) % 100000), [], T.Str))
                 else:
                     parts.append(self.ctx.uf_apply(self, "fmt", [val], T.Str))
         if not parts:
@@ -377,6 +396,10 @@ class Evaluator(Run):
             return self.call_value(const(BoundMethod(base, "__getitem__")), [self.ev(sl, frame)], {}, node, frame)
         if k == "const":
             raise Unsupported("subscript of %r" % (base.z,))
+        if k == "opaque":
+            from . import models
+
+            return models.call_method(self, base, "__getitem__", [self.ev(sl, frame)], {}, node)
         idx = self.project(self.ev(sl, frame), kindp("int", "bool"), lab)
         return self.seq_index(base, idx, lab, heap)
 
@@ -575,6 +598,14 @@ class Evaluator(Run):
         finally:
             self.old_heap, self.spec_env = saved
 
+    def special_log(self, node, frame):
+        nm = node.args[0].value
+        lg = self.ghost.get(("log", nm))
+        if lg is None:
+            st = T.Seq(self.ctx.log_type(nm))
+            return V(st, z3.Empty(st.sort()))
+        return lg
+
     def special_implies(self, node, frame):
         a = self.truthy(self.ev(node.args[0], frame))
         b = self.truthy(self.ev(node.args[1], frame))
@@ -671,7 +702,7 @@ class Evaluator(Run):
             cell = self.cell(obj) if self.old_heap is None else self.old_heap[obj.z]
             opt = self.ctx.optional_fields.get((obj.t.cls, name))
             if name in cell.content:
-                val = cell.content[name]
+                val = self.unnull(cell.content[name], name)
                 if opt and len(node.args) >= 3:
                     # optional field: ("missing" flag stored as ghost field)
                     miss = cell.content.get("__missing_" + name)
@@ -830,6 +861,11 @@ class Evaluator(Run):
         if k == "obj":
             self.call_value(const(BoundMethod(base, "__setitem__")), [self.ev(sl, frame), val], {}, node, frame)
             return
+        if k == "opaque":
+            from . import models
+
+            models.call_method(self, base, "__setitem__", [self.ev(sl, frame), val], {}, node)
+            return
         raise Unsupported("subscript store on %s" % base.t)
 
     # ================================================================== statements
@@ -845,6 +881,8 @@ class Evaluator(Run):
         if m is None:
             raise Unsupported("statement %s (line %s)" % (type(node).__name__, node.lineno))
         self.cur_stmt = node
+        if self.ctx.c.asserts:
+            self.ctx.statement_asserts(self, node, frame)
         return m(node, frame)
 
     def ex_abstract(self, node, frame, ab):
@@ -1167,14 +1205,13 @@ class Evaluator(Run):
 
     def unroll_for(self, node, frame, it, key):
         k = self.ctx.unroll_bound
-        self.bounded = "loop %s unrolled %d times (no invariant)" % (key, k)
-        self.ctx.note_bounded(key, k)
         try:
             for j in range(k + 1):
                 if not self.decide(it.n > j, "%s.unroll%d" % (key, j)):
                     self.ex_block(node.orelse, frame)
                     return
                 if j == k:
+                    self.ctx.note_bounded(key, k)
                     raise PathEnd()  # unwinding assumption
                 self.assign(node.target, it.at(z3.IntVal(j)), frame)
                 try:
@@ -1189,8 +1226,6 @@ class Evaluator(Run):
         spec = self.ctx.loop_spec(key)
         if spec is None:
             k = self.ctx.unroll_bound
-            self.bounded = "loop %s unrolled %d times (no invariant)" % (key, k)
-            self.ctx.note_bounded(key, k)
             try:
                 for j in range(k + 1):
                     c = self.ev(node.test, frame)
@@ -1198,6 +1233,7 @@ class Evaluator(Run):
                         self.ex_block(node.orelse, frame)
                         return
                     if j == k:
+                        self.ctx.note_bounded(key, k)
                         raise PathEnd()
                     try:
                         self.ex_block(node.body, frame)
@@ -1285,6 +1321,7 @@ class Evaluator(Run):
                 o.env[n] = fresh(lt, n)
             else:
                 o.env[n] = self.havoc_like(v, n)
+        ctx.havoc_logs(self, node.body, key)
         ctx.havoc_extra(self, spec)
         idx = z3.Int(fresh_name("_i"))
         extra = {"_i": mk_int(idx), "_n": mk_int(it.n) if is_for else mk_int(0)}
